@@ -27,7 +27,7 @@ def main(ctx):
                "3- and 4-frame streams, 1- and 2-frame streams on a server with a request size limit at / one below a frame's payload length, and connected sessions (Forward Open, SendUnitData, Forward Close, session-ending frames); schedules: whole stream in one chunk, one chunk per frame, 2 random chunkings.  "
                "Non-trivial: >= 2 frames, or a failing / unroutable / silent request.")
     ev.assumptions = ["Register's random session handle only required to be non-zero",
-                      "List Identity / Services / Interfaces replies: header (command, context, status 0, length) checked; payload not modelled yet"]
+                      "List Identity / Services / Interfaces replies: the payload is that of the simulator's default Identity object and its one Communications service (ServerOps!ListPayload)"]
     serverlib.run_model(ctx, wd, 1 if ctx.quick else 2, "any", "pipeline", "pipe")
     scs = serverlib.emit_scenarios(ctx, wd, 2, "any", "pipeline", "pipe2")
     if ctx.machinery:
